@@ -160,6 +160,9 @@ def report(prop, tier, seed, outcomes, errors, ctx, t0, extra=None, assumptions=
     absent = [k for k in listed if (k["rule"], k["construct"], k["fact"]) not in seenk]
     for k in absent:
         lines.append(f"NOTE property={prop} listed known finding not observed on this tree: {k['rule']} {k['construct']}: {k['fact']}")
+    from verifkit import pat as _pat
+    for nt in sorted(set(_pat.NORMALISER_NOTES)):
+        lines.append(f"NOTE property={prop} {nt}")
     for o, i in viol:
         lines.append(f"  {o.rule} {i.where} {i.construct}: {i.fact}" + (f" -- {i.detail}" if i.detail else "")
                      + (f" [path: {' -> '.join(i.path)}]" if i.path else ""))
@@ -203,6 +206,7 @@ def report(prop, tier, seed, outcomes, errors, ctx, t0, extra=None, assumptions=
         "analysed": dict(ctx.model.census(), **ctx.graph.census()) if ctx else {},
         "source_root": ctx.model.src if ctx else None,
         "known_findings_reported": len(seenk),
+        "normal_form_passes_skipped": sorted(set(_pat.NORMALISER_NOTES)),
         "known_findings_listed_but_not_observed": [f"{k['rule']} {k['construct']}: {k['fact']}" for k in absent],
         "analysis_errors": errors + [f"undecided: {o.rule} {i.construct}: {i.fact}" for o, i in und],
     }
